@@ -553,3 +553,7 @@ def c11_r7(ctx: Ctx, rule):
                      "when the element carries xsi:type, the type implied by the element name (`%s`) is no longer recorded" % svar,
                      "foreign XML <prov:person prov:id='ex:bob' xsi:type='ex:Employee'/> loads as an agent typed ex:Employee only; prov:Person is silently dropped")
     return res
+
+
+RULES.setdefault("C11", []).append(Rule("C11.R8", "repeated identifiers survive the re-serialisation step: presence in the JSON container is key membership (shared with C01.R8)", 1, c01_r8, "F-PATH",
+                                        "a loaded document with an attribute-less record sharing an identifier with another writes both, so write-load gives d again"))
